@@ -42,6 +42,8 @@ JudgeEvent(ev) ==
           /\ (ev.roundtrip_eq \/ Report("C15", "print_parse_not_equal", ev, ""))
           /\ (ev.translated_leaves = Proj(L) \/ Report("C15", "leaves_differ_after_translate", ev, ""))
           /\ (ev.combine_leaves = Proj(L) \/ Report("C15", "leaves_differ_after_combine", ev, ""))
+          \* C10: the descriptor built through the API, formatted and parsed, is an equal object
+          /\ (ev.built_print_parse \in {"equal", "notbuilt"} \/ Report("C10", "built_tree_print_parse_not_equal", ev, ev.built_print_parse))
           \* commitment
           /\ (~ev.spend_panic \/ Report("C11", "taproot_panic", ev, "spend_info"))
           /\ (~ev.spend_panic \/ Report("C15", "spend_info_panics_on_accepted_tree", ev, ""))
